@@ -319,6 +319,7 @@ func c04bGenRPCRule(sb *strings.Builder, frp *ast.File) error {
 		"CreateCommonHeaderMatcher": func(a []string) string { return "(createCommonHeaderMatcher " + a[0] + ")" },
 		"CreateHTTPHeaderMatcher":   func(a []string) string { return "(createHTTPHeaderMatcher " + a[0] + ")" },
 		"strings.ToLower":           func(a []string) string { return "(lower " + a[0] + ")" },
+		"strings.EqualFold":         func(a []string) string { return "(equalFold " + a[0] + " " + a[1] + ")" },
 	}
 	c.Ret = c04bRetExpr(c)
 	body, err := c.fn(fd)
